@@ -389,7 +389,15 @@ class Topology(ABC):
         :param name:
         :return:
         """
-        self.graph_model.remove_ns_with_cps_and_links(node_id=self._get_ns_by_name(name=name).node_id)
+        ns = self._get_ns_by_name(name=name)
+        # if this service peers with other services, remove their service ports facing us as well,
+        # so they are not left without a peer
+        for i in ns.interface_list:
+            peers = i.get_peers(itype=InterfaceType.ServicePort)
+            if peers:
+                for peer in peers:
+                    self.graph_model.remove_cp_and_links(node_id=peer.node_id)
+        self.graph_model.remove_ns_with_cps_and_links(node_id=ns.node_id)
 
     def _get_node_by_name(self, name: str) -> Node:
         """
